@@ -1,4 +1,5 @@
-import PPLV.Lin.Proofs
+import PPLV.Lin.CertProofs
+import PPLV.Lin.Model
 
 /-! # K1 theorems, part 2: tidying, iterated elimination, the deciders -/
 namespace PPLV.Lin
@@ -109,8 +110,8 @@ theorem mem_dedup (cs : List Con) (c : Con) : c ∈ dedup cs ↔ c ∈ cs := by
 theorem not_sat_falseRow (x : Val) : ¬ falseRow.sat x := by
   unfold Con.sat falseRow Con.eval; simp
 
-theorem tidy_correct (cs : List Con) (x : Val) : Sat (tidy cs) x ↔ Sat cs x := by
-  unfold tidy
+theorem tidy0_correct (cs : List Con) (x : Val) : Sat (tidy0 cs) x ↔ Sat cs x := by
+  unfold tidy0
   simp only
   split
   · rename_i h
@@ -128,7 +129,7 @@ theorem tidy_correct (cs : List Con) (x : Val) : Sat (tidy cs) x ↔ Sat cs x :=
       · apply (sat_normalize c x).mp
         apply h
         rw [mem_dedup]
-        simp only [List.mem_filter, List.mem_map, Bool.not_eq_true', Bool.not_eq_eq_eq_not,
+        simp only [List.mem_filter, List.mem_map, Bool.not_eq_eq_eq_not,
           Bool.not_true]
         exact ⟨⟨c, hc, rfl⟩, by simpa using ht⟩
     · intro h c hc
@@ -136,6 +137,14 @@ theorem tidy_correct (cs : List Con) (x : Val) : Sat (tidy cs) x ↔ Sat cs x :=
       simp only [List.mem_filter, List.mem_map] at hc
       obtain ⟨⟨d, hd, rfl⟩, -⟩ := hc
       exact (sat_normalize d x).mpr (h d hd)
+
+/-- `tidy` = `tidy0` followed (for larger systems) by certified pruning -/
+theorem tidy_correct (cs : List Con) (x : Val) : Sat (tidy cs) x ↔ Sat cs x := by
+  unfold tidy
+  simp only
+  split
+  · exact tidy0_correct cs x
+  · rw [pruneRows_correct, List.nil_append]; exact tidy0_correct cs x
 
 /-! ### iterated elimination -/
 
@@ -198,10 +207,10 @@ theorem constOK_iff (cs : List Con) : constOK cs = true ↔ Sat cs Val.zero := b
     · exact_mod_cast this
     · simp; exact_mod_cast this
 
-/-- **Feasibility is decided**: for rows over variables `< n`. -/
-theorem feasible_iff (n : Nat) (cs : List Con) (hwf : WF n cs) :
-    feasible n cs = true ↔ ∃ x, Sat cs x := by
-  unfold feasible
+/-- complete Fourier–Motzkin decision, for rows over variables `< n` -/
+theorem feasibleFM_iff (n : Nat) (cs : List Con) (hwf : WF n cs) :
+    feasibleFM n cs = true ↔ ∃ x, Sat cs x := by
+  unfold feasibleFM
   rw [constOK_iff, ← elimVars_correct]
   constructor
   · rintro ⟨x', -, hs⟩; exact ⟨x', (tidy_correct cs x').mp hs⟩
@@ -218,23 +227,20 @@ theorem feasible_iff (n : Nat) (cs : List Con) (hwf : WF n cs) :
       have : i < n := by omega
       simp [this]
 
+/-- **Feasibility is decided**: for rows over variables `< n` (a verified certificate when the
+    simplex produced one, complete Fourier–Motzkin elimination otherwise). -/
+theorem feasible_iff (n : Nat) (cs : List Con) (hwf : WF n cs) :
+    feasible n cs = true ↔ ∃ x, Sat cs x := by
+  unfold feasible
+  cases hc : certify n cs with
+  | none => exact feasibleFM_iff n cs hwf
+  | some b =>
+    cases b with
+    | true => exact ⟨fun _ => certify_true n cs hc, fun _ => rfl⟩
+    | false =>
+      exact ⟨fun h => (by cases h), fun h => absurd h (certify_false n cs hc)⟩
+
 /-! ### implication, inclusion, equality -/
-
-theorem sat_neg_iff (c : Con) (x : Val) : c.neg.sat x ↔ ¬ c.sat x := by
-  have he : c.neg.eval x = - c.eval x := by
-    unfold Con.eval Con.neg
-    simp only
-    have : c.coeffs.map (- ·) = c.coeffs.map ((-1 : Int) * ·) := by
-      apply List.map_congr_left; intro a _; ring
-    rw [this, dot_map_mul]; push_cast; ring
-  unfold Con.sat
-  rw [he]
-  have hs : c.neg.strict = !c.strict := rfl
-  rw [hs]
-  cases c.strict <;> simp
-
-theorem neg_length (c : Con) : c.neg.coeffs.length = c.coeffs.length := by
-  simp [Con.neg]
 
 theorem implies_iff (n : Nat) (cs : List Con) (c : Con) (hwf : WF n cs) (hc : c.coeffs.length ≤ n) :
     implies n cs c = true ↔ ∀ x, Sat cs x → c.sat x := by
